@@ -225,47 +225,110 @@ def run(ctx):
     ctx.ob('R05.4', 'take returns one permit to the size semaphore and decrements size once', ok, ctx.where(tk),
            'add_permits %s, size updates %s' % ([(w, tan.resolve_operand(x.term.args[1])) for x, w in adds], [(x[1], x[2]) for x in subs]), construct='take-size-slot')
     # constructors
+    # initial books of the two constructors, evaluated symbolically as linear forms over `max` (the configured max_size) and
+    # `L` (the number of objects supplied): however the constructor is written (literals, a shared `PoolInner::new(config,
+    # objects)`, ..) from_config must give (size_semaphore, semaphore, size, available) = (max, 0, 0, 0) and From<I> must
+    # give (0, L, L, L) with max_size = L
+    def lin_eval(an_, body_, op, depth=0):
+        """{'max': a, 'L': b, '1': c} or None"""
+        if depth > 14:
+            return None
+        if op.kind == 'const':
+            v = str(op.const.get('v', ''))
+            try:
+                return {'1': int(v.split('_')[0])}
+            except ValueError:
+                return None
+        pl = op.place
+        lf = pl.last_field()
+        if lf and lf[1] == 'max_size' and lf[0].endswith('PoolConfig'):
+            # whose config? one built by PoolConfig::new(x) -> x ; the caller's configuration -> max
+            base = Operand({'c': {'l': pl.local, 'pr': [], 'own': []}})
+            for s_ in sources(an_, base, deep=False):
+                if s_[0] == 'call' and s_[1] == 'deadpool::unmanaged::config::PoolConfig::new':
+                    return lin_eval(an_, body_, body_.blocks[s_[2]].term.args[0], depth + 1)
+            return {'max': 1}
+        if pl.proj and tuple(pl.proj) == ('.0',):
+            d0 = an_.single_def(pl.local)
+            if d0 and d0[0] == 'stmt' and d0[3].rv.kind == 'bin' and d0[3].rv.binop in ('SubWithOverflow', 'AddWithOverflow'):
+                a_ = lin_eval(an_, body_, d0[3].rv.ops[0], depth + 1); b_ = lin_eval(an_, body_, d0[3].rv.ops[1], depth + 1)
+                if a_ is None or b_ is None:
+                    return None
+                sg = -1 if d0[3].rv.binop.startswith('Sub') else 1
+                return {k: a_.get(k, 0) + sg * b_.get(k, 0) for k in set(a_) | set(b_)}
+            return None
+        if pl.proj:
+            return None
+        d = an_.single_def(pl.local)
+        if d is None:
+            return None
+        if d[0] == 'stmt':
+            rv = d[3].rv
+            if rv.kind in ('use', 'cast'):
+                return lin_eval(an_, body_, rv.ops[0], depth + 1)
+            if rv.kind == 'bin' and rv.binop in ('Sub', 'Add'):
+                a_ = lin_eval(an_, body_, rv.ops[0], depth + 1); b_ = lin_eval(an_, body_, rv.ops[1], depth + 1)
+                if a_ is None or b_ is None:
+                    return None
+                sg = -1 if rv.binop == 'Sub' else 1
+                return {k: a_.get(k, 0) + sg * b_.get(k, 0) for k in set(a_) | set(b_)}
+            return None
+        tt = d[3]
+        names = tt.callee_names()
+        if any(n.endswith('Vec::len') or n.endswith('::len') and 'Vec' in n for n in names):
+            vs = sources(an_, tt.args[0], deep=True)
+            if any(s_[0] == 'call' and ('collect' in s_[1] or 'into_iter' in s_[1]) for s_ in vs):
+                return {'L': 1}
+            if any(s_[0] == 'call' and (s_[1].endswith('Vec::with_capacity') or s_[1].endswith('Vec::new')) for s_ in vs):
+                return {'1': 0}
+            return None
+        if any(n.split('::')[-1] in ('try_into', 'try_from', 'unwrap', 'expect', 'into', 'from', 'unwrap_or_default') for n in names) and tt.args:
+            return lin_eval(an_, body_, tt.args[0], depth + 1)
+        return None
+
+    def norm(v):
+        return None if v is None else {k: c for k, c in v.items() if c != 0}
+
+    def ctor_books(body_):
+        an_ = prog.an(body_)
+        aggs_ = [s for x in body_.blocks for s in x.stmts if s.kind == 'assign' and s.rv.kind == 'agg' and s.rv.j.get('adt') == r.INNER]
+        if len(aggs_) != 1:
+            return None, None
+        f_ = dict(zip(aggs_[0].rv.j['fields'], aggs_[0].rv.ops))
+        def through(op, pat):
+            src = [s for s in sources(an_, op) if s[0] == 'call' and pat(s[1])]
+            if len(src) != 1:
+                return None
+            return norm(lin_eval(an_, body_, body_.blocks[src[0][2]].term.args[0]))
+        sem_new = lambda n_: n_ == 'tokio::sync::Semaphore::new'
+        atom_new = lambda n_: n_.endswith('::new') and 'atomic' in n_
+        cfg = None
+        csrc = [s for s in sources(an_, f_[r.CONFIG]) if s[0] == 'call' and s[1] == 'deadpool::unmanaged::config::PoolConfig::new']
+        if len(csrc) == 1:
+            cfg = norm(lin_eval(an_, body_, body_.blocks[csrc[0][2]].term.args[0]))
+        return aggs_[0], {'SIZESEM': through(f_[r.SIZESEM], sem_new), 'SEM': through(f_[r.SEM], sem_new), 'size': through(f_[r.SIZE], atom_new),
+                          'available': through(f_[r.AVAIL], atom_new), 'max_size': cfg, '_fields': f_}
+
     fc = r.FROM_CONFIG
-    fan = prog.an(fc)
     ctx.saw(fc)
-    agg = [s for x in fc.blocks for s in x.stmts if s.kind == 'assign' and s.rv.kind == 'agg' and s.rv.j.get('adt') == r.INNER]
-    if len(agg) == 1:
-        f = dict(zip(agg[0].rv.j['fields'], agg[0].rv.ops))
-        def semarg(op):
-            src = [s for s in sources(fan, op) if s[0] == 'call' and s[1] == 'tokio::sync::Semaphore::new']
-            if len(src) != 1:
-                return None
-            return fan.resolve_operand(fc.blocks[src[0][2]].term.args[0])
-        def atomarg(op):
-            src = [s for s in sources(fan, op) if s[0] == 'call' and s[1].endswith('::new') and 'atomic' in s[1]]
-            if len(src) != 1:
-                return None
-            return fan.resolve_operand(fc.blocks[src[0][2]].term.args[0])
-        vals = {'SIZESEM': semarg(f[r.SIZESEM]), 'SEM': semarg(f[r.SEM]), 'size': atomarg(f[r.SIZE]), 'available': atomarg(f[r.AVAIL])}
-        ok = vals['SIZESEM'] is not None and vals['SIZESEM'].endswith('max_size') and vals['SEM'] == '0_usize' and vals['size'] == '0_usize' and vals['available'] == '0_isize'
-        ctx.ob('R05.4', 'from_config: size semaphore = max_size, object semaphore 0, counters 0', ok, ctx.where(fc, agg[0].line), str(vals), construct='init:from_config', sites=[str(vals)])
+    agg0, vals = ctor_books(fc)
+    if agg0 is not None:
+        show = {k: v for k, v in vals.items() if k != '_fields'}
+        ok = vals['SIZESEM'] == {'max': 1} and vals['SEM'] == {} and vals['size'] == {} and vals['available'] == {}
+        ctx.ob('R05.4', 'from_config: size semaphore = max_size, object semaphore 0, counters 0', ok, ctx.where(fc, agg0.line), str(show), construct='init:from_config', sites=[str(show)])
     else:
         ctx.undecide('R05.4', 'from_config: PoolInner aggregate not found')
     fi = r.FROM_ITER
     ian = prog.an(fi)
     ctx.saw(fi)
-    agg = [s for x in fi.blocks for s in x.stmts if s.kind == 'assign' and s.rv.kind == 'agg' and s.rv.j.get('adt') == r.INNER]
-    if len(agg) == 1:
-        f = dict(zip(agg[0].rv.j['fields'], agg[0].rv.ops))
-        def arg_of(op, pat):
-            src = [s for s in sources(ian, op) if s[0] == 'call' and pat(s[1])]
-            if len(src) != 1:
-                return None
-            return ian.resolve_operand(fi.blocks[src[0][2]].term.args[0])
-        v_sizesem = arg_of(f[r.SIZESEM], lambda n_: n_ == 'tokio::sync::Semaphore::new')
-        v_sem = arg_of(f[r.SEM], lambda n_: n_ == 'tokio::sync::Semaphore::new')
-        v_size = arg_of(f[r.SIZE], lambda n_: n_.endswith('::new') and 'atomic' in n_)
-        v_cfg = arg_of(f[r.CONFIG], lambda n_: n_ == 'deadpool::unmanaged::config::PoolConfig::new')
-        v_av = arg_of(f[r.AVAIL], lambda n_: n_.endswith('::new') and 'atomic' in n_)
-        len_src = lambda v: v is not None and 'len' in v
-        ok = v_sizesem == '0_usize' and len_src(v_sem) and v_sem == v_size == v_cfg and v_av is not None and v_sem in v_av
+    agg1, vals = ctor_books(fi)
+    if agg1 is not None:
+        f = vals['_fields']
+        show = {k: v for k, v in vals.items() if k != '_fields'}
+        ok = vals['SIZESEM'] == {} and vals['SEM'] == {'L': 1} and vals['size'] == {'L': 1} and vals['available'] == {'L': 1} and vals['max_size'] == {'L': 1}
         ctx.ob('R05.4', 'From<iterator>: the same length feeds max_size, size, available and the object semaphore; no free size permits', ok,
-               ctx.where(fi, agg[0].line), 'SIZESEM=%s SEM=%s size=%s max=%s' % (v_sizesem, v_sem, v_size, v_cfg), construct='init:from_iter')
+               ctx.where(fi, agg1.line), str(show), construct='init:from_iter')
+        agg = [agg1]
         qsrc = sources(ian, f[r.QUEUE])
         ctx.ob('R05.4', 'From<iterator>: every element of the iterator is queued', any(s[0] == 'call' and 'collect' in s[1] for s in qsrc), ctx.where(fi, agg[0].line), '', construct='init:from_iter-queue')
     else:
